@@ -45,6 +45,7 @@ type OpOptions struct {
 	NodeRoot      bool // node(id:) at the root with fragments
 	NodeRootPlain bool // wild: node(id:) { id }
 	AliasHelpers  bool // wild: alias id/__typename
+	VarReuse      bool // one variable used at several argument positions, of different nullability where the types allow it
 	IDVar         bool // sometimes call a client variable `id`, the name the executor uses for its own lookups (C01/C02 open finding variable-named-id)
 	EntityIDArgs  bool // String/ID argument values are sometimes the id of an existing entity (what an id-hint function recognises)
 }
@@ -82,7 +83,10 @@ type opGen struct {
 	features  map[string]bool
 	fragsOn   map[string][]string // fragment names by type condition (for re-spreading: MultiSpread)
 	usedIDVar bool
+	reusable  []reusableVar
 }
+
+type reusableVar struct{ name, typ string }
 
 // GenOp draws a valid operation of the given kind ("query"/"mutation"/"subscription") against a schema.
 func GenOp(r *hx.Rand, schema *ast.Schema, data *Data, kind string, o OpOptions) *Op {
@@ -251,6 +255,20 @@ func (g *opGen) args(fd *ast.FieldDefinition) string {
 		if !a.Type.NonNull && g.r.Chance(1, 4) {
 			continue
 		}
+		// an earlier variable whose declared type fits this position (same type, or its non-null form)
+		if g.o.VarReuse && g.o.Variables && len(g.reusable) > 0 && g.r.Chance(1, 3) {
+			var fit []string
+			for _, rv := range g.reusable {
+				if rv.typ == a.Type.String() || rv.typ == a.Type.String()+"!" {
+					fit = append(fit, rv.name)
+				}
+			}
+			if len(fit) > 0 {
+				g.features["variable-reuse"] = true
+				parts = append(parts, a.Name+": $"+hx.Pick(g.r, fit))
+				continue
+			}
+		}
 		nDefs, nVar := len(g.varDefs), g.nvar
 		lit, val := g.literal(a.Type)
 		if g.o.Variables && g.r.Chance(1, 2) {
@@ -266,7 +284,14 @@ func (g *opGen) args(fd *ast.FieldDefinition) string {
 				g.features["variable-named-id"] = true
 			}
 			g.nvar++
-			def := "$" + vn + ": " + a.Type.String()
+			declared := a.Type.String()
+			if g.o.VarReuse && !a.Type.NonNull && val != nil && g.r.Chance(1, 3) {
+				declared += "!" // a stricter declaration than the position asks for is valid, and reusable at `T!` positions
+			}
+			def := "$" + vn + ": " + declared
+			if g.o.VarReuse && vn != "id" {
+				g.reusable = append(g.reusable, reusableVar{vn, declared})
+			}
 			if g.o.VarDefaults && g.r.Chance(1, 3) {
 				def += " = " + lit
 				g.features["var-default"] = true
@@ -275,7 +300,7 @@ func (g *opGen) args(fd *ast.FieldDefinition) string {
 				}
 			} else {
 				g.vars[vn] = val
-				if !a.Type.NonNull && g.r.Chance(1, 6) {
+				if !a.Type.NonNull && !strings.HasSuffix(declared, "!") && g.r.Chance(1, 6) {
 					g.vars[vn] = nil // an explicit null is a value: it must be forwarded
 					g.features["null-variable"] = true
 				}
